@@ -265,7 +265,16 @@ func refBuiltin(name string, recv Val, args []Val) refOut {
 		switch name {
 		case "int", "ceil", "floor", "round":
 			// a float that has no integer of the 64-bit range near it (NaN, an infinity, 1e19) cannot be converted
-			if f != f || math.Abs(f) >= 9.2e18 {
+			r := f
+			switch name {
+			case "ceil":
+				r = math.Ceil(f)
+			case "floor":
+				r = math.Floor(f)
+			case "round":
+				r = math.Round(f)
+			}
+			if r != r || r >= 9223372036854775808.0 || r < -9223372036854775808.0 {
 				return rErr()
 			}
 		}
